@@ -61,6 +61,24 @@ theorem cfb_enc_dec_states_agree (C : Cipher) (hC : C.Valid) (iv : Bytes) (hiv :
   simp only
   rw [(cfbDec_cfbEnc C hC m iv hiv hm).2]
 
+/-- IGE: a decryptor fed the encryptor's output exports the same double-length state `C_n ‖ P_n`. -/
+theorem ige_enc_dec_states_agree (C : Cipher) (hC : C.Valid) (iv : Bytes) (hiv : iv.length = 2 * C.bs)
+    (m : List Bytes) (hm : AllLen C.bs m) :
+    Ige.ivState C (foldBlocks (Ige.decBlock C) (Ige.init C iv) (foldBlocks (Ige.encBlock C) (Ige.init C iv) m).1).2
+      = Ige.ivState C (foldBlocks (Ige.encBlock C) (Ige.init C iv) m).2 := by
+  rw [C02.ige_enc_fold, C02.ige_dec_fold, C02.ige_init_abs]
+  have h1 : (igeIv C iv).1.length = C.bs := by simp [igeIv]; omega
+  have h2 : (igeIv C iv).2.length = C.bs := by simp [igeIv]; omega
+  simp only
+  rw [(igeDec_igeEnc C hC m (igeIv C iv) h1 h2 hm).2]
+
+/-- CFB-8: encryptor and decryptor hold the same shift register after corresponding data (any byte string). -/
+theorem cfb8_enc_dec_states_agree (C : Cipher) (hC : C.Valid) (iv : Bytes) (hiv : iv.length = C.bs) (m : Bytes) :
+    (foldBlocks (Cfb8.decBlock C) iv (C03.bytesAsBlocks (Spec.cfb8Enc C iv m).1)).2
+      = (foldBlocks (Cfb8.encBlock C) iv (C03.bytesAsBlocks m)).2 := by
+  rw [C03.cfb8_enc_fold C hC m iv hiv, C03.cfb8_dec_fold C hC _ iv hiv]
+  exact (cfb8Dec_cfb8Enc C m iv).2
+
 /-- counter blocks compose: block `i` counted from block `j` is block `j + i`. -/
 theorem ctrBlock_add (f : Flavor) (hw : f.w = 8 * f.cs) (iv : Bytes) (hiv : f.cs ≤ iv.length) (j i : Nat) :
     ctrBlock f (ctrBlock f iv j) i = ctrBlock f iv (j + i) := by
